@@ -261,6 +261,27 @@ func (w *World) open() error {
 	})
 }
 
+// PreSync advances the manager's synced-to block to height h in one database
+// transaction (a wallet that has followed the chain for a while: beyond 10 000
+// blocks every new block also prunes the hash kept for height-10000).
+func (w *World) PreSync(h int32) error {
+	err := w.Update(func(ns walletdb.ReadWriteBucket) error {
+		for i := w.Height + 1; i <= h; i++ {
+			var hash chainhash.Hash
+			hash[0], hash[1], hash[2], hash[3], hash[31] = byte(i), byte(i>>8), byte(i>>16), 0x5c, 1
+			bs := &waddrmgr.BlockStamp{Height: i, Hash: hash, Timestamp: time.Unix(int64(1600000000+int(i)*600), 0)}
+			if err := w.M.SetSyncedTo(ns, bs); err != nil {
+				return err
+			}
+		}
+		return nil
+	})
+	if err == nil {
+		w.Height = h
+	}
+	return err
+}
+
 // Restart closes manager and database and opens them again.
 func (w *World) Restart() error {
 	w.Handles = nil // objects of the manager being closed
